@@ -13,7 +13,7 @@ def run(ctx):
             "intermediate as anchor (presented or not), several anchors, leaf / middle intermediate as anchor), root pathLen absent/0/1/2/3, root presented or not, presentation order, and the API "
             "(matrixValidateCerts, matrixValidateCertsExt, +REVALIDATE_DATES). A reference path finder over the generator's ground truth decides validity; OpenSSL X509_verify_cert cross-checks the generator. "
             "distinct_nontrivial = distinct (key types per level, length, operators@positions, anchor set, root pathLen, order, root presented).")
-    return vflib.std_run(ctx, st, "exhaustive_small_scope" if ctx.thorough else "exploration", rule,
+    return vflib.std_run(ctx, st, "exploration", rule,
         ["the handshake-level consequences (alerts, completion) are C04's", "issuerCerts == NULL is the API's documented self-signed-chain test; its acceptances are recorded, not asserted",
          "name constraints, policy extensions and OCSP are not enabled in this configuration and not generated", "Ed25519-signed CRLs cannot be parsed by psX509ParseCRL, so revocation under Ed25519 issuers is not generated",
          "keys come from OpenSSL's RNG (not seed-derived); the seed varies names, serials and corrupted bit positions only"], min_nontrivial=800)
